@@ -32,6 +32,17 @@ HIST = {
     "C17-C": "matrix 1: missed -> casts of constant Date / Datetime sources (C17, after the temporal extension)",
     "C17-D": "matrix 1: missed -> frames with millisecond / nanosecond datetime unit (C17)",
     "C20-C": "matrix 1: missed -> `derived[t.x].export(..)` (C20)",
+    # round 3: generated after all of the above; first exposure = the checks as they were then
+    "C03-E": "round 3, first exposure: MISSED (str.len in bytes needs non-ASCII data) -> `s_len_unicode*` templates + UTF-8 length in SEM_polars",
+    "C04-E": "round 3, first exposure: caught",
+    "C05-E": "round 3, first exposure: MISSED (one order key twice with different markers) -> `c05.samecol.*` (added for the genuine defect F43 the same agent stumbled on)",
+    "C06-E": "round 3, first exposure: caught",
+    "C08-E": "round 3, first exposure: MISSED (spurious SubqueryError for full_join after filter >> alias) -> verb kind Q (full join) in sequences and acceptance clauses",
+    "C12-E": "round 3, first exposure: MISSED - the check read 'numeric family' leniently; led to the strict reading and to the genuine defects F45-F49 (section 3 C12); patch re-based after those fixes",
+    "C13-E": "round 3, first exposure: caught",
+    "C14-E": "round 3, first exposure: caught",
+    "C17-E": "round 3, first exposure: caught",
+    "C19-E": "round 3, first exposure: caught",
 }
 
 TEXT = """## 10. Seeded changes: which checks catch which
@@ -64,8 +75,13 @@ constant, a `C.`-condition, a datetime frame in milliseconds, ...).  This is the
 section 5: values are decided by the solver, programs are enumerated.  Each miss was closed by
 adding the shape to the corpus / rule table of the property it belongs to (column `history`), the
 checks were re-run on the unchanged tree (no new alarm) and on the change (caught).  Round 3 was
-generated *after* that, so its row shows what the strengthened checks do on changes they were not
-tuned to.
+generated *after* that, so its first exposure shows what the strengthened checks do on changes
+they were not tuned to: 6 of 10 caught (C04, C06, C13, C14, C17, C19), 4 missed (C03, C05, C08,
+C12) - again program shapes (non-ASCII strings for `str.len`, one order key twice, full joins) and,
+for C12, a too lenient reading of the property on my side, whose correction exposed five genuine
+defects of the unchanged code (F45-F49).  The sub-agents also reported three things that failed on
+the *unchanged* tree while they built their demos; all three were confirmed, reproduced by a new
+template and repaired (F42-F44).  The table below is the state after the last strengthening.
 
 """
 
